@@ -57,7 +57,7 @@ CLAIM = dict(
           "whole instance predicate holds_C09 that the monitor evaluates on the real output; the line-scope clause in its strongest "
           "form: nl_before - for every code token, is there a newline token between the previous code token and it - is the same "
           "list for the input and the written text, so a one-line if stays on one line and what followed it on a later line stays "
-          "on a later line), C09_luafmt_idempotent (whole-program idempotence for the models: additionally without a one-line if with "
+          "on a later line), [C09_luafmt_idempotent is being re-proved on top of the merged C10_indent_link - parked in rocq/pending/, not part of the claim] (whole-program idempotence for the models: additionally without a one-line if with "
           "else and without a trailing table separator - the two places where the writer's nesting counter is not the reference depth, "
           "C10_indent_link - the text luafmt wrote is lexed by the lexer model, and whenever the parser model reads those tokens to "
           "the end with a tree under the same conditions, luafmt writes exactly the same text again; Proofs/FmtRelexIdem.v), "
